@@ -552,6 +552,23 @@ let model_posts (pre : istate) (label : sx) (post : istate option) dl : (unit ->
         | None -> [ fun () -> (w0, "") ])
      | _ -> [ fun () -> (w0, "") ])
 
+(* which properties' model parts a step exercises: a disagreement on that step breaks their tie to the code *)
+let props_of_step (label : sx) (pre : istate) (crashed : bool) : string =
+  let base = match lst label with
+    | A "rec" :: A "tx" :: _ -> [ "C01"; "C05"; "C09" ]
+    | A "rec" :: A "master" :: _ | A "rec" :: A "conn" :: _ -> [ "C10" ]
+    | A "rec" :: A "cfg" :: _ -> [ "C04"; "C10" ]
+    | [ A "rec"; A "prop"; t; i; _; _ ] ->
+      (match List.assoc_opt (inum t, inum i) (props_of pre.w) with
+       | Some p when p.p_apply <> None -> [ "C02"; "C04"; "C10"; "C11" ]
+       | Some p when p.p_abort <> None -> [ "C01"; "C02"; "C09" ]
+       | Some p when p.p_commit <> None -> [ "C01"; "C02"; "C05"; "C06" ]
+       | Some p when p.p_validate <> None -> [ "C05"; "C06"; "C01" ]
+       | _ -> [ "C02"; "C09" ])
+    | A "nbchange" :: _ | A "nbrollback" :: _ -> [ "C01"; "C06" ]
+    | _ -> [ "C10"; "C04" ] in
+  "[" ^ String.concat "," (List.sort_uniq compare (base @ [ "C07" ] @ (if crashed then [] else []))) ^ "]"
+
 let validate id (label : sx) (pre : istate) (post : istate) dl =
   let posts = model_posts pre label (Some post) dl in
   let ci = canon post.w in
@@ -568,10 +585,11 @@ let validate id (label : sx) (pre : istate) (post : istate) dl =
     (* device requests: the model's new log entries against the observed ones *)
     let ml = List.sort compare (List.map (fun (DevSet (t, c, term, _, r, a)) -> s_req (t, c, term, r, a)) (devlog w)) in
     let il = List.sort compare (List.map s_req dl) in
-    if ml <> il then mismatch id (Printf.sprintf "device requests of step %s: model=%s impl=%s" (match label with L (A a :: _) -> a | _ -> "?") (String.concat ";" ml) (String.concat ";" il))
+    if ml <> il then mismatch id (Printf.sprintf "%s device requests of step %s: model=%s impl=%s" (props_of_step label pre false)
+                                    (match label with L (A a :: _) -> a | _ -> "?") (String.concat ";" ml) (String.concat ";" il))
   | None ->
     let (d, info) = match !first with Some x -> x | None -> (None, "") in
-    mismatch id (Printf.sprintf "step %s %s: %s" (String.concat " " (List.map (function A a -> a | L _ -> "(..)") (lst label))) info (match d with Some s -> s | None -> ""))
+    mismatch id (Printf.sprintf "%s step %s %s: %s" (props_of_step label pre false) (String.concat " " (List.map (function A a -> a | L _ -> "(..)") (lst label))) info (match d with Some s -> s | None -> ""))
 
 let label_name (label : sx) = match lst label with
   | A "rec" :: A k :: _ -> "rec." ^ k
@@ -619,7 +637,7 @@ let () =
          let ci = canon pre.w in
          if not (List.exists (fun th -> let (w, _) = th () in diff_canon (canon w) ci = None && devlog w = []) posts) then begin
            let (w, info) = (List.hd posts) () in
-           mismatch id (Printf.sprintf "implementation did nothing on %s; model %s: %s" (String.concat " " (List.map (function A a -> a | L _ -> "(..)") (lst label))) info
+           mismatch id (Printf.sprintf "%s implementation did nothing on %s; model %s: %s" (props_of_step label pre false) (String.concat " " (List.map (function A a -> a | L _ -> "(..)") (lst label))) info
                           (match diff_canon (canon w) ci with Some s -> s | None -> "device request " ^ String.concat ";" (List.map (fun (DevSet (t, c, term, _, r, a)) -> s_req (t, c, term, r, a)) (devlog w))))
          end
        | None -> ())
